@@ -405,8 +405,11 @@ def run_check(comp, tier: str, seed: int, replay: str | None = None) -> int:
         violations.append((sig, p, True))
 
     # 5b. correspondence disagreements that no monitor failure explains: failing-input search
-    unexplained = [i for i in disagreements
-                   if not any(i in idxs for sig, idxs in failures.items() if sig not in known_sigs)]
+    explained = set()
+    for sig, idxs in failures.items():
+        if sig not in known_sigs:
+            explained.update(idxs)
+    unexplained = [i for i in disagreements if i not in explained]
     searched = 0
     if unexplained and not violations:
         c0 = min((cases[i] for i in unexplained), key=len)
